@@ -55,6 +55,28 @@ theorem noninterference_current (m : MState) (s : Sched) (t : Tid) (n : Nat) (v 
     obsOf Cel.Gen.RuntimeNs.namespacePolicy m s t = some v :=
   noninterference Cel.Bridge.RuntimeNs.namespace_is_perCall m s t n v halone hcomplete
 
+/-- **What the driver computes is covered by the theorem.**  The hold schedules the check replays on the real code
+(driver query `H`, py/verif/props/c16_worker.py: every thread runs to its call of `gate`, then the threads are released in any
+order `release`, for any fuel and any number of threads) are schedules: under the per-call policy every thread ends in a
+state of its evaluation alone. -/
+theorem hold_schedule_noninterference (fuel n : Nat) (m : MState) (release : List Tid) (t : Tid) :
+    ∃ k, (runHold .perCall fuel n m release).threads t = runAlone (m.threads t) k := by
+  obtain ⟨s, hs⟩ := runHold_is_schedule .perCall fuel n m release
+  exact ⟨s.count t, by rw [hs]; exact noninterference_perCall m s t⟩
+
+/-- the same for the segmented (bounded-preemption) schedules of the explorer (driver query `E`) -/
+theorem segmented_schedule_noninterference (fuel n : Nat) (m : MState) (segs : List (Tid × Nat)) (t : Tid) :
+    ∃ k, (runSegments .perCall fuel n m segs).threads t = runAlone (m.threads t) k := by
+  obtain ⟨s, hs⟩ := runSegments_is_schedule .perCall fuel n m segs
+  exact ⟨s.count t, by rw [hs]; exact noninterference_perCall m s t⟩
+
+/-- … and for an interpreted thread under either policy, whatever the other threads are -/
+theorem hold_schedule_noninterference_interpreted (pol : NamespacePolicy) (fuel n : Nat) (m : MState) (release : List Tid) (t : Tid)
+    (h : m.kinds t = .I) :
+    ∃ k, (runHold pol fuel n m release).threads t = runAlone (m.threads t) k := by
+  obtain ⟨s, hs⟩ := runHold_is_schedule pol fuel n m release
+  exact ⟨s.count t, by rw [hs]; exact noninterference_interpreted pol m s t h⟩
+
 /-- a thread's steps never change another thread's state, under either policy (the interference of the shared
 policy goes through the shared namespace only) -/
 theorem other_threads_untouched (pol : NamespacePolicy) (t t' : Tid) (m : MState) (h : t' ≠ t) :
@@ -101,5 +123,12 @@ theorem shared_namespace_witness : obsOf .shared witness witnessSched 0 = some (
 /-- other schedules make A run with B's activation (`base_activation` overwritten) or pick up B's result -/
 example : obsOf .shared witness (List.replicate 1 0 ++ List.replicate 30 1 ++ List.replicate 30 0) 0 = some (.err "key:x") := by decide +kernel
 example : obsOf .shared witness (List.replicate 26 0 ++ List.replicate 30 1 ++ List.replicate 30 0) 0 = some (.bool false) := by decide +kernel
+
+/-- the hold schedule "A runs to its `gate`, B runs to its end, A is released" on the D4 witness: harmless under the per-call
+policy (the conclusion of `hold_schedule_noninterference` with the solo results), the D4 error under the shared one — so the
+restriction of `hold_schedule_noninterference` to `.perCall` is necessary for compiled threads -/
+example : ((runHold .perCall 100 2 witness [0]).threads 0).out = some (.bool true) ∧
+          ((runHold .perCall 100 2 witness [0]).threads 1).out = some (.bool false) := by decide +kernel
+example : ((runHold .shared 100 2 witness [0]).threads 0).out = some (.err "key:y") := by decide +kernel
 
 end Cel.Props.C16
